@@ -138,8 +138,11 @@ hasperr:
 			db.compWriteLocking = true
 		case <-db.closeC:
 			if db.compWriteLocking {
-				// We should release the lock or Close will hang.
-				<-db.writeLockC
+				// Close wants the write lock. Don't release it: a writer
+				// that waits for the lock could take it before Close and
+				// write to a read-only DB (which may not even have a
+				// journal). Keep it and tell Close that it is held.
+				close(db.compLockedC)
 			}
 			return
 		}
